@@ -160,10 +160,16 @@ def judge_table(ctx, obj, captured, printed, dmc, dfn, key, H):
         ctx.check(len(captured) == 1, "table_displayed", f"{len(captured)} tables displayed", key=key)
         df = captured[0].data if hasattr(captured[0], "data") else captured[0]
         vals = np.asarray(df.values, float)
-        exp_f = [obj.mean_fn_frequency(dfn), obj.std_fn_frequency(dfn),
-                 obj.nth_std_fn_frequency(-1, dfn), obj.nth_std_fn_frequency(+1, dfn)]
-        exp_a = [obj.mean_fn_amplitude(dfn), obj.std_fn_amplitude(dfn),
-                 obj.nth_std_fn_amplitude(-1, dfn), obj.nth_std_fn_amplitude(+1, dfn)]
+        try:
+            exp_f = [obj.mean_fn_frequency(dfn), obj.std_fn_frequency(dfn),
+                     obj.nth_std_fn_frequency(-1, dfn), obj.nth_std_fn_frequency(+1, dfn)]
+            exp_a = [obj.mean_fn_amplitude(dfn), obj.std_fn_amplitude(dfn),
+                     obj.nth_std_fn_amplitude(-1, dfn), obj.nth_std_fn_amplitude(+1, dfn)]
+        except Exception:                                   # noqa
+            # the object itself has no such statistics in this state (e.g. an azimuth without any accepted peak):
+            # outside the property's domain, whatever the table shows
+            ctx.probe("table_for_object_without_statistics")
+            return
         ctx.check(vals.shape == (3, 4), "table_shape", f"table shape {vals.shape}", key=key)
         ctx.check(close(vals[0], exp_f, 0, 0), "table_fn_row", f"fn row {vals[0]} != object's fn statistics {exp_f}", key=key)
         ctx.check(close(vals[2], exp_a, 0, 0), "table_an_row", f"An row {vals[2]} != object's amplitude statistics {exp_a}", key=key)
